@@ -5,8 +5,12 @@ Transliteration of the Python class:
   * `_count_map` (an insertion-ordered dict `key -> [count, delta]`) is an
     association list `cm` with unique keys, in dict order;
   * `add`  = `TC.add`   (increment-or-insert, then compaction every `w` additions);
-  * `update` with an iterable of keys / a mapping `key -> count` / keyword counts
-    all reduce to repeated `add` (`Op.flatten`);
+  * `update(iterable=None, **kwargs)` with an iterable of keys / a mapping
+    `key -> count` / keyword counts - and a positional argument TOGETHER with
+    keyword counts (`if kwargs: self.update(kwargs)` runs after the positional
+    part, so the two contributions add up) - all reduce to repeated `add`
+    (`Op.flatten`); `update(other_counter)` is `TC.absorb` (the other counter's
+    `items()` taken as the mapping);
   * readers are the functions at the end.
 `w` is `_thresh_count = int(1 / threshold)`; the constructor rejects thresholds
 outside (0, 1), so `w ≥ 1` for every constructed counter.
@@ -56,13 +60,32 @@ inductive Op (K : Type) where
   | add (k : K)
   | updateKeys (ks : List K)             -- update(iterable of keys)
   | updateMap (kcs : List (K × Nat))     -- update(mapping) / update(**kwargs)
+  | updateKeysKw (ks : List K) (kws : List (K × Nat))          -- update(iterable, **kwargs)
+  | updateMapKw (kcs : List (K × Nat)) (kws : List (K × Nat))  -- update(mapping, **kwargs)
 deriving Repr
 
-/-- the additions an operation performs, in order -/
+/-- `for key, count in mapping.items(): for i in range(count): self.add(key)` as a list of additions -/
+def expand (kcs : List (K × Nat)) : List K := kcs.flatMap fun kc => List.replicate kc.2 kc.1
+
+/-- the additions an operation performs, in order (keyword counts after the positional argument) -/
 def Op.flatten : Op K → List K
   | .add k => [k]
   | .updateKeys ks => ks
-  | .updateMap kcs => kcs.flatMap fun kc => List.replicate kc.2 kc.1
+  | .updateMap kcs => expand kcs
+  | .updateKeysKw ks kws => ks ++ expand kws
+  | .updateMapKw kcs kws => expand kcs ++ expand kws
+
+/-- what the statement calls the number of additions of `k` a mapping asks for: the sum of the counts
+    given for `k` (specification side; no reference to `add`) -/
+def wsum (k : K) (kcs : List (K × Nat)) : Nat := (kcs.map fun kc => if kc.1 = k then kc.2 else 0).sum
+
+/-- additions of `k` demanded by one public operation (specification side) -/
+def Op.weight (k : K) : Op K → Nat
+  | .add k' => if k' = k then 1 else 0
+  | .updateKeys ks => ks.count k
+  | .updateMap kcs => wsum k kcs
+  | .updateKeysKw ks kws => ks.count k + wsum k kws
+  | .updateMapKw kcs kws => wsum k kcs + wsum k kws
 
 def TC.step (s : TC K) (op : Op K) : TC K := s.addAll op.flatten
 
@@ -88,6 +111,10 @@ def TC.items (s : TC K) : List (K × Nat) := s.cm.map fun e => (e.key, e.cnt)
 def TC.elements (s : TC K) : List K := s.cm.flatMap fun e => List.replicate e.cnt e.key
 def TC.commonCount (s : TC K) : Nat := (s.cm.map (·.cnt)).sum
 def TC.uncommonCount (s : TC K) : Nat := s.total - s.commonCount
+
+/-- `self.update(other)` with another ThresholdCounter: `other.items()` is the mapping
+    (`other` may be `self`: `items()` returns a list, i.e. a snapshot) -/
+def TC.absorb (s src : TC K) : TC K := s.step (.updateMap src.items)
 
 /-- stable insertion into a list sorted by descending count (Python's
     `sorted(..., key=count, reverse=True)` is stable: equal counts keep dict order) -/
